@@ -64,18 +64,18 @@ PROPS = {
     ),
     "C09": dict(
         level_text='FULL: table semantics of every single parameter, extended colours incl. colon forms and malformed groups, sequencing, encoder round trip C09_diff for all pen pairs, attributes_formatted on any receiver pen, finite sweep 0..255.',
-        families=[("sgr", 2000, 60000), ("table", 1500, 40000)],
+        families=[("sgr", 2000, 60000), ("table", 1500, 40284)],
         projection="Screen.sgr, Attrs.sgr_diff, attributes_formatted bytes", model_decides=True,
     ),
     "C10": dict(
         level_text='FULL: mode_effect table over the 240-state space, independence from all other state and input (C10_independent), most-recent-wins, formatted/diff round trips for all pairs, emptiness iff equal.',
-        families=[("modes", 2000, 40000), ("table", 1500, 40000)],
+        families=[("modes", 2000, 40000), ("table", 1500, 40284)],
         projection="mode fields of the screen, input_mode_formatted / input_mode_diff bytes", model_decides=True,
     ),
     "C11": dict(
         level_text='FULL: DECSC/DECRC restore (position, origin, pen) across any save-free input, isolation of the inactive grid for every switch-free action, closed forms of 47/1049 entry/exit and all four round trips, alternate grid never has scrollback.',
         families=[("alt", 1500, 40000)],
-        projection="both grids, saved cursor and pen across DECSC/DECRC and 47/1049",
+        projection="both grids, saved cursor and pen across DECSC/DECRC and 47/1049", model_decides=True,
     ),
     "C12": dict(
         level_text='FULL: closed form of scroll_up incl. recording rule and offset rule, history = suffix of all scrolled-off lines bounded by capacity, view formula, view-only theorem (run with set_scrollback calls removed is identical up to the offset, incl. panics), alternate screen never records.',
@@ -90,7 +90,7 @@ PROPS = {
     "C14": dict(
         level_text='FULL: declarative text specification (rows, contents, contents_between) for all windows/tuples incl. out-of-range, no-panic corollaries.',
         families=[("text", 2500, 60000)],
-        projection="contents(), rows(start,width), contents_between() text",
+        projection="contents(), rows(start,width), contents_between() text", model_decides=True,
     ),
     "C15": dict(
         level_text='FULL for blank/aligned receivers at offset 0, PARTIAL for wrapped rows in the diff clause: C15_full_reachable_obs — the row-wise protocol (rows_formatted(0,cols) row by row, continuing unpositioned after a wrapped row, then cursor_state_formatted, attributes_formatted, input_mode_formatted) on a blank receiver of the same size reproduces obs S for every reachable screen at offset 0; C15_window / C15_window_row — for every aligned proper sub-window, drawing row i at (i,start) on rows blank from start on reproduces the cells inside the window; C15diff_window / C15diff_window_row / C15diff_full (Props/C15diff.v) — drawing row i of rows_diff(prev,start,width) at (i,start) on a receiver whose rows show prev turns the cells inside the window into the current ones (cells before start untouched), for screens without soft-wrapped rows and windows left-aligned to wide-character boundaries in both screens; rows_formatted/rows_diff never panic for ALL windows (C03), tokens re-parse (C01tok), self-diff empty (C19). Outside the theorems: rows_diff on wrapped rows (shares the wrap-carry paths of C02), carried by correspondence of the row bytes plus the protocol oracle.',
@@ -100,17 +100,17 @@ PROPS = {
     "C16": dict(
         level_text='FULL: sizes, exact clamps, pointwise cell preservation/blanking incl. cut wide characters, scrollback kept, invariant re-established so every other theorem applies afterwards, resize callback.',
         families=[("resize", 2000, 50000)],
-        projection="set_size on both grids, state after every resize and after the suffix",
+        projection="set_size on both grids, state after every resize and after the suffix", model_decides=True,
     ),
     "C17": dict(
         level_text='FULL: vte state after ESC c is exactly p_init, screen is exactly the fresh screen, log only extended by events of a string/character the ESC terminates, later runs identical to a fresh parser up to the log prefix (incl. panics).',
         families=[("stream", 1500, 40000)],
-        projection="scr_ris and everything after it",
+        projection="scr_ris and everything after it", model_decides=True,
     ),
     "C18": dict(
         level_text='FULL: events_of table with C18_exact for every action, inertness of reported actions, silence of implemented ones, exactly-one-action theorems for general CSI/ESC/OSC grammars incl. limits.',
-        families=[("csi", 1500, 50000), ("chunk", 500, 10000), ("table", 2500, 40000)],
-        projection="callback event log and vte action stream",
+        families=[("csi", 1500, 50000), ("chunk", 500, 10000), ("table", 2500, 40284)],
+        projection="callback event log and vte action stream", model_decides=True,
     ),
     "C19": dict(
         level_text='FULL: observation record, all formatted emitters factor through it (no offset-0 hypothesis needed), self/obs-equal diffs empty, concatenation laws; CellBytes refinement shows stale bytes are unobservable.',
